@@ -18,27 +18,52 @@ META = {
             '{for-loop, list(), all(), next() by hand, index/equality (list mode), manual fetch_next_page+current_rows, one() then '
             'iterate, iterate-some-then-fetch, callbacks with start_fetching_next_page}, row factories and protocol versions: rows '
             'delivered must be the concatenation of the pages, every request must carry the paging state returned with the previous '
-            'page (first one none), exactly one request per page and none after the page without paging state.',
-    'note': 'The virtual node derives the page from the paging state it receives, so a wrong or stale state yields visibly wrong rows.',
+            'page (first one none), exactly one request per page and none after the page without paging state.  Fault layer: page-size '
+            'sequences of length 2..4 (quick) / 2..5 (thorough) x one fault on any page after the first (two faults, on the same or on '
+            'different pages, for length <= 3 (quick) / <= 4 (thorough)) x fault kind {READ_TIMEOUT that the retry policy rethrows, '
+            'every host of the plan failing (NoHostAvailable), node silent until the client timeout fires, READ_TIMEOUT that the retry '
+            'policy ignores (an empty result for that fetch), READ_TIMEOUT retried on the same host (transparent)} x an application that '
+            'catches the error and keeps reading {next() on the same iterator, fetch_next_page() in a has_more_pages loop, errback that '
+            'calls start_fetching_next_page again}: the rows read must still be the concatenation of all pages, and every request -- '
+            'the repeated one included -- must carry the paging state returned with the last page that was received.',
+    'note': 'The virtual node derives the page from the paging state it receives, so a wrong or stale state yields visibly wrong rows.  '
+            'Faults hit page requests after the first only (a failed first page is a failed execute(), not paging); a request that timed '
+            'out on the client is never answered late; restarting iteration with a new for-loop/list() after an error is not exercised '
+            '(it replays the current page by design).',
     'design_ref': 'C18',
 }
 
 PATTERNS = ['for', 'list', 'all', 'next', 'index', 'eq', 'manual', 'one_then_for', 'some_then_fetch', 'callbacks']
+# applications that catch the error of a failed page fetch and keep reading
+RESILIENT = ['next_resume', 'manual_retry', 'callbacks_retry']
+# what can happen to the request for a page (after the first); the second field says whether the caller sees an error
+FAULTS = {'rethrow': 'ReadTimeout', 'nohost': 'NoHostAvailable', 'timeout': 'OperationTimedOut', 'ignore': None, 'retry': None}
+FAULT_KINDS = ['rethrow', 'nohost', 'timeout', 'ignore', 'retry']
+MAX_ERRORS = 6       # a reader that keeps getting errors gives up (never reached when the property holds)
 
 
 class PagingServer(object):
-    def __init__(self, sizes):
+    """Pages by the paging state it is given.  faults: ((page, kind), ...) -- the i-th fault listed for a page hits the
+    i-th request for that page; afterwards the page is served."""
+    def __init__(self, sizes, faults=(), policy=None):
         self.sizes = sizes
         self.requests = []       # paging state of every application request
         self.pages = []
+        self.faults = {}
+        for k, kind in faults:
+            self.faults.setdefault(k, []).append(kind)
+        self.policy = policy
+        self._answer = None
         n = 0
         for s in sizes:
             self.pages.append([[n + i] for i in range(s)])
             n += s
 
-    def __call__(self, server, conn, stream, req):
+    def hold(self, conn, req):
+        """Called for every request before it is answered: classify it; a request hit by 'timeout' is never answered."""
+        self._answer = None
         if req['op'] != 'QUERY' or req.get('query') != 'SELECT v FROM t':
-            return None
+            return False
         ps = req.get('paging_state')
         self.requests.append(ps)
         if ps is None:
@@ -47,17 +72,129 @@ class PagingServer(object):
             try:
                 k = int(ps.decode()[1:])
             except Exception:
-                return wire.OP_ERROR, wire.error(wire.ERR_PROTOCOL, 'bad paging state %r' % ps)
+                self._answer = wire.OP_ERROR, wire.error(wire.ERR_PROTOCOL, 'bad paging state %r' % ps)
+                return False
         if k >= len(self.pages):
-            return wire.OP_ERROR, wire.error(wire.ERR_PROTOCOL, 'page %d does not exist' % k)
+            self._answer = wire.OP_ERROR, wire.error(wire.ERR_PROTOCOL, 'page %d does not exist' % k)
+            return False
+        if self.faults.get(k):
+            kind = self.faults[k].pop(0)
+            if kind == 'timeout':
+                return True
+            if kind == 'nohost':
+                # the retry policy moves on to the next host; the plan has no other host
+                self._answer = wire.OP_ERROR, wire.error(wire.ERR_BOOTSTRAPPING, 'bootstrapping')
+            else:
+                self.policy.read_timeout = {'rethrow': 'RETHROW', 'ignore': 'IGNORE', 'retry': 'RETRY'}[kind]
+                self._answer = wire.OP_ERROR, wire.error(wire.ERR_READ_TIMEOUT, 'rt', cl=1, received=1, blockfor=2, data_present=False)
+            return False
         nxt = ('p%d' % (k + 1)).encode() if k + 1 < len(self.pages) else None
-        return wire.OP_RESULT, wire.result_rows([('v', wire.T_INT)], self.pages[k], req['version'], paging_state=nxt)
+        self._answer = wire.OP_RESULT, wire.result_rows([('v', wire.T_INT)], self.pages[k], req['version'], paging_state=nxt)
+        return False
+
+    def __call__(self, server, conn, stream, req):
+        r, self._answer = self._answer, None
+        return r
 
 
-def consume(session, w, pattern, factory):
+class FaultWorld(World):
+    """A caller blocked on a request that the node never answers: the only thing that can still happen is the passage
+    of time, so the reactor runs the next connection timer (the request's client timeout)."""
+    def pump(self, pred=None):
+        World.pump(self, pred)
+        guard = 0
+        while pred is not None and not pred() and self.server.pending and self.live_timers() and guard < 10:
+            guard += 1
+            self.let_request_time_out()
+            World.pump(self, pred)
+
+    def let_request_time_out(self):
+        del self.server.pending[:]          # the node stays silent for good
+        self.fire_timer(self.live_timers()[0])
+
+    def run_to_quiescence(self):
+        World.pump(self)
+        guard = 0
+        while self.server.pending and self.live_timers() and guard < 10:
+            guard += 1
+            self.let_request_time_out()
+            World.pump(self)
+
+
+def make_policy():
+    from cassandra.policies import RetryPolicy
+
+    class FaultRetryPolicy(RetryPolicy):
+        read_timeout = 'RETHROW'
+
+        def on_read_timeout(self, query, consistency, required_responses, received_responses, data_retrieved, retry_num):
+            return getattr(RetryPolicy, self.read_timeout), None
+
+        def on_request_error(self, query, consistency, error, retry_num):
+            return RetryPolicy.RETRY_NEXT_HOST, None
+    return FaultRetryPolicy()
+
+
+def consume_resilient(session, w, pattern, val, stmt, seen):
+    """Readers that survive a failed page fetch; seen collects the names of the errors they caught."""
+    from cassandra import ReadTimeout, OperationTimedOut
+    from cassandra.cluster import NoHostAvailable
+    caught = (ReadTimeout, OperationTimedOut, NoHostAvailable)
+    if pattern == 'callbacks_retry':
+        got, fatal = [], []
+        f = session.execute_async(stmt)
+
+        def again():
+            if f.has_more_pages:
+                f.start_fetching_next_page()
+
+        def on_page(rows):
+            got.extend(val(r) for r in rows or [])
+            again()
+
+        def on_error(exc):
+            if not isinstance(exc, caught):
+                fatal.append(exc)
+                return
+            seen.append(type(exc).__name__)
+            if len(seen) < MAX_ERRORS:
+                again()
+        f.add_callbacks(on_page, on_error)
+        w.run_to_quiescence()
+        if fatal:
+            raise fatal[0]
+        return got
+    rs = session.execute(stmt)
+    if pattern == 'next_resume':
+        out = []
+        it = iter(rs)
+        while len(seen) < MAX_ERRORS:
+            try:
+                out.append(val(next(it)))
+            except StopIteration:
+                break
+            except caught as e:
+                seen.append(type(e).__name__)
+        return out
+    if pattern == 'manual_retry':
+        out = [val(r) for r in rs.current_rows]
+        while rs.has_more_pages and len(seen) < MAX_ERRORS:
+            try:
+                rs.fetch_next_page()
+            except caught as e:
+                seen.append(type(e).__name__)
+                continue
+            out.extend(val(r) for r in rs.current_rows)
+        return out
+    raise ValueError(pattern)
+
+
+def consume(session, w, pattern, factory, seen=None):
     from cassandra.query import SimpleStatement
     stmt = SimpleStatement('SELECT v FROM t', fetch_size=2)
     val = (lambda r: r[0]) if factory == 'tuple' else (lambda r: r['v'])
+    if pattern in RESILIENT:
+        return consume_resilient(session, w, pattern, val, stmt, seen)
     if pattern == 'callbacks':
         got = []
         f = session.execute_async(stmt)
@@ -97,7 +234,6 @@ def consume(session, w, pattern, factory):
                 return out
             i += 1
     if pattern == 'eq':
-        rows = list(rs._current_rows) if False else None
         same = (rs == [])          # forces list mode (materialises everything)
         return [val(r) for r in rs]
     if pattern == 'manual':
@@ -122,51 +258,94 @@ def consume(session, w, pattern, factory):
     raise ValueError(pattern)
 
 
-def run_case(sizes, pattern, factory, pv):
+def run_case(sizes, pattern, factory, pv, faults=()):
     from cassandra.query import tuple_factory, dict_factory
-    ps = PagingServer(sizes)
+    policy = make_policy()
+    ps = PagingServer(sizes, faults, policy)
     srv = VServer([HostSpec('10.0.0.1')])
     srv.on_request = ps
-    w = World(srv)
+    srv.hold = ps.hold
+    w = FaultWorld(srv)
+    seen = []
     with w:
         from cassandra.cluster import ExecutionProfile, EXEC_PROFILE_DEFAULT
         from cassandra.policies import RoundRobinPolicy
-        prof = ExecutionProfile(load_balancing_policy=RoundRobinPolicy(),
+        prof = ExecutionProfile(load_balancing_policy=RoundRobinPolicy(), retry_policy=policy,
                                 row_factory=tuple_factory if factory == 'tuple' else dict_factory)
         cluster = w.make_cluster(protocol_version=pv, execution_profiles={EXEC_PROFILE_DEFAULT: prof})
         session = cluster.connect()
         try:
-            got = consume(session, w, pattern, factory)
+            got = consume(session, w, pattern, factory, seen)
             err = None
         except Exception as e:      # noqa
             got, err = None, '%s: %s' % (type(e).__name__, e)
+        del srv.pending[:]
         cluster.shutdown()
-    return got, err, ps.requests
+    return got, err, ps.requests, seen
+
+
+def expected_requests(sizes, faults):
+    """None for the first page, then the state returned with the last received page -- once more for every fault that
+    hit the request for that page."""
+    out = []
+    for k in range(len(sizes)):
+        state = None if k == 0 else ('p%d' % k).encode()
+        out += [state] * (1 + sum(1 for p, _ in faults if p == k))
+    return out
 
 
 def run_chunk(cases):
     part = Part()
-    for sizes, pattern, factory, pv in cases:
+    for case_t in cases:
+        sizes, pattern, factory, pv = case_t[:4]
+        faults = tuple(tuple(f) for f in case_t[4]) if len(case_t) > 4 else ()
         part.count('evaluations')
-        got, err, reqs = run_case(sizes, pattern, factory, pv)
+        got, err, reqs, seen = run_case(sizes, pattern, factory, pv, faults)
         want = list(range(sum(sizes)))
-        want_reqs = [None] + [('p%d' % k).encode() for k in range(1, len(sizes))]
+        want_reqs = expected_requests(sizes, faults)
         case = {'sizes': list(sizes), 'pattern': pattern, 'factory': factory, 'pv': pv}
-        part.outcome((pattern, 'error' if err else 'ok', len(reqs)))
-        if len(sizes) > 1 and 0 in sizes:
-            part.mark_nontrivial(repr((sizes, pattern, factory, pv)))
-        part.sample(dict(case, rows=got, requests=[r.decode() if r else None for r in reqs]), limit=2)
+        if faults:
+            case['faults'] = [list(f) for f in faults]
+            part.count('fault_histories')
+        part.outcome((pattern, 'error' if err else 'ok', len(reqs), tuple(seen)))
+        if (len(sizes) > 1 and 0 in sizes) or faults:
+            part.mark_nontrivial(repr((sizes, pattern, factory, pv, faults)))
+        part.sample(dict(case, rows=got, requests=[r.decode() if r else None for r in reqs], caught=seen), limit=2)
         shape = 'empty-page' if 0 in sizes else 'full-pages'
+        if faults:
+            shape = 'after-' + '+'.join(sorted(set(k for _, k in faults)))
         if err:
             part.violation('C18/raised/%s/%s' % (pattern, shape), '%s for %r' % (err, case), case)
             continue
         if got != want:
             kind = 'lost' if len(got) < len(want) else ('duplicated' if len(got) > len(want) else 'order')
-            part.violation('C18/rows/%s/%s/%s' % (kind, pattern, shape), 'rows %r, expected %r for %r' % (got, want, case), case)
+            part.violation('C18/rows/%s/%s/%s' % (kind, pattern, shape), 'rows %r, expected %r for %r (errors the reader caught: %r)'
+                           % (got, want, case, seen), case)
         if reqs != want_reqs:
             kind = 'extra-request' if len(reqs) > len(want_reqs) else ('missing-request' if len(reqs) < len(want_reqs) else 'wrong-state')
-            part.violation('C18/paging-state/%s/%s' % (kind, pattern), 'requests carried %r, expected %r for %r' % (reqs, want_reqs, case), case)
+            part.violation('C18/paging-state/%s/%s%s' % (kind, pattern, '/' + shape if faults else ''),
+                           'requests carried %r, expected %r for %r' % (reqs, want_reqs, case), case)
     return part
+
+
+def fault_cases(quick):
+    """(sizes, pattern, 'tuple', pv, faults): one fault on any page after the first; two faults (same page twice, or two
+    pages) on the shorter sequences."""
+    max1, max2 = (4, 3) if quick else (5, 4)
+    out = []
+    for n in range(2, max1 + 1):
+        for sizes in itertools.product((0, 1, 2), repeat=n):
+            scheds = [((k, a),) for k in range(1, n) for a in FAULT_KINDS]
+            if n <= max2:
+                scheds += [((k1, a), (k2, b)) for k1 in range(1, n) for k2 in range(k1, n) for a in FAULT_KINDS for b in FAULT_KINDS]
+            for fs in scheds:
+                for p in RESILIENT:
+                    out.append((sizes, p, 'tuple', 4, fs))
+                    if not quick and n <= 3:
+                        out.append((sizes, p, 'dict', 4, fs))
+                        out.append((sizes, p, 'tuple', 3, fs))
+                        out.append((sizes, p, 'tuple', 5, fs))
+    return out
 
 
 def run(ctx):
@@ -176,19 +355,22 @@ def run(ctx):
     cases = [(s, p, f, v) for s in seqs for p in PATTERNS for f in ('tuple', 'dict') for v in pvs]
     if ctx.quick:
         cases += [(s, p, 'tuple', v) for s in seqs if len(s) <= 3 for p in PATTERNS for v in (2, 5)]
+    faulty = fault_cases(ctx.quick)
+    cases += faulty
     cases = ctx.rotate(cases)
     n = ctx.nproc * 4
     for part in ctx.pmap(run_chunk, [cases[i::n] for i in range(n) if cases[i::n]]):
         ctx.merge(part)
     ctx.count('states', len(cases))
-    ctx.count('transitions', sum(len(c[0]) for c in cases))
-    ctx.cov['rule'] = ('page-size sequences x access pattern x row factory x protocol version enumerated completely; non-trivial = '
-                       'more than one page with at least one empty page')
+    ctx.count('transitions', sum(len(c[0]) + (len(c[4]) if len(c) > 4 else 0) for c in cases))
+    ctx.cov['rule'] = ('page-size sequences x access pattern x row factory x protocol version enumerated completely, and page-size '
+                       'sequences x fault schedule (page, kind) x error-surviving reader enumerated completely (counter fault_histories); '
+                       'non-trivial = more than one page with at least one empty page, or at least one faulted page request')
     ctx.cov['exhaustive'] = True
 
 
 def replay(ctx, data):
-    part = run_chunk([(tuple(data['sizes']), data['pattern'], data['factory'], data['pv'])])
+    part = run_chunk([(tuple(data['sizes']), data['pattern'], data['factory'], data['pv'], data.get('faults', ()))])
     for fp, what, _ in part.violations:
         print(fp, '::', what)
     return bool(part.violations)
